@@ -356,9 +356,12 @@ class Inliner:
         self._cand[path] = ok
         return ok
 
-    def expand(self, root, depth=0):
+    def expand(self, root, depth=0, params=()):
         if depth > 3:
             return root
+        if depth == 0:
+            self.names = {x["name"] for x in list(all_nodes(root)) + list(all_nodes(list(params)))
+                          if x.get("k") in ("local", "pbind") and isinstance(x.get("name"), str)}
 
         def fn(n):
             if n.get("k") != "call" or n.get("ctor"):
@@ -375,12 +378,18 @@ class Inliner:
         body = copy.deepcopy(b["hir_raw"] if "hir_raw" in b else b["hir"])
         params = copy.deepcopy(b["params"])
         tag = f"~{self.ids.next() % 100000}"
+        taken = getattr(self, "names", set())
+        mine = set()
         for x in list(all_nodes(body)) + list(all_nodes(params)):
             if x.get("k") in ("local", "pbind") and isinstance(x.get("id"), int):
                 x["id"] += off
-                # the helper's own locals get names that cannot collide with (or shadow) the caller's
+                # a local of the helper whose name the caller (or an earlier inlined helper) also uses gets a name that cannot
+                # collide with or shadow it; the others keep theirs
                 if isinstance(x.get("name"), str) and x["name"] != "self":
-                    x["name"] = x["name"] + tag
+                    if x["name"] in taken:
+                        x["name"] = x["name"] + tag
+                    mine.add(x["name"])
+        taken |= mine
         sub, lets = {}, []
         for p, a in zip(params, call["args"]):
             if "Mut" not in str(p.get("mode", "")).split(",")[-1] and place_like(a):
@@ -699,6 +708,45 @@ def alias(root, params):
             return dict(n, name=t["name"], id=t["id"])
         return n
     return map_tree(root, sub)
+
+
+def split_tuple_lets(root):
+    """`let (a, b) = (x, y);` with pure x, y -> `let a = x; let b = y;` (locals are id-resolved, so a swap stays a swap)."""
+    def fn(n):
+        if n.get("k") != "block":
+            return n
+        out, changed = [], False
+        for s in n.get("stmts", []):
+            if isinstance(s, dict) and s.get("k") == "let" and "els" not in s and isinstance(s.get("init"), dict):
+                p_, i_ = s["pat"], hir.simp(s["init"])
+                subs = p_.get("pats") if p_.get("k") == "ptuple" else None
+                if subs is not None and i_.get("k") == "tuple" and len(i_.get("es", [])) == len(subs) and len(subs) > 0 \
+                        and all(q.get("k") == "pbind" and "sub" not in q for q in subs) and all(pure(x) for x in i_["es"]):
+                    for q, x in zip(subs, i_["es"]):
+                        out.append({"k": "let", "pat": q, "init": x, "ln": s.get("ln"), "norm": "tuple-let"})
+                    changed = True
+                    continue
+            out.append(s)
+        return dict(n, stmts=out) if changed else n
+    return map_tree(root, fn)
+
+
+def untag(root, params):
+    """A helper local that was renamed `x~N` because the caller had an `x` gets its name back when that `x` is gone (aliased away,
+    substituted) — names then do not depend on whether the code sits in a helper."""
+    by_base = {}
+    for x in list(all_nodes(root)) + list(all_nodes(list(params))):
+        if x.get("k") in ("local", "pbind") and isinstance(x.get("name"), str):
+            by_base.setdefault(x["name"].split("~")[0], set()).add(x["name"])
+    ren = {next(iter(v)): base for base, v in by_base.items() if len(v) == 1 and "~" in next(iter(v))}
+    if not ren:
+        return root
+
+    def fn(n):
+        if n.get("k") in ("local", "pbind") and n.get("name") in ren:
+            return dict(n, name=ren[n["name"]])
+        return n
+    return map_tree(root, fn)
 
 
 def rename_params(b, ref_names):
@@ -1098,7 +1146,7 @@ def normalise_crate(name, crate):
     for b in bodies:
         h = b.pop("hir_pre")
         if inl is not None:
-            h2 = inl.expand(h)
+            h2 = inl.expand(h, params=b.get("params", []))
             if any(x.get("inlined") for x in all_nodes(h2) if isinstance(x, dict)):
                 h2 = hoist(h2)
                 h2 = case_of_case(h2)
@@ -1108,10 +1156,12 @@ def normalise_crate(name, crate):
             h = h2
         h = map_tree(h, _or_split)
         h = map_tree(h, _mem_replace)
+        h = split_tuple_lets(h)
         h = cast_to_uses(h)
         h = alias(h, b.get("params", []))
         h = subst_int_lets(h)
         h = map_tree(h, _assign_op)
+        h = untag(h, b.get("params", []))
         b["hir"] = h
         if ref is not None and b["path"] in ref and ref[b["path"]] is not None:
             rename_params(b, ref[b["path"]])
